@@ -53,7 +53,7 @@ def c03(c):
     """flush and merge (any subset of the file parts, fan-in 2..4) never change what the covering query returns -
     nor, in the -queries families, what criteria and ordered queries return under each index configuration"""
     qfams = [_fam(name='stream-merge-queries-' + idx, series=S, times=T, maxrows=1, maxtotal=3, maxops=3,
-                  sims=30 if c.quick else 300, simops=12, queries=c03_queries(), index=idx, sim=dict(maxrows=2, maxtotal=8))
+                  sims=20 if c.quick else 300, simops=12, queries=c03_queries(), index=idx, sim=dict(maxrows=2, maxtotal=8))
              for idx in ('skipping', 'inverted')]
     return qfams + [
         _fam(name='stream-merge-subsets', series=[1, 2], times=[1, 2], maxrows=1, maxtotal=4, maxops=6 if c.quick else 9,
@@ -112,6 +112,14 @@ def c08(c):
         fams.append(_fam(name='stream-criteria-' + idx, series=S, times=T, maxrows=1, maxtotal=3, maxops=3,
                          sims=40 if c.quick else 400, simops=11, queries=c08_queries(C08_EXCLUDE[idx]), index=idx,
                          sim=dict(maxrows=3, maxtotal=8)))
+    # two shards: the series of one query live in different tables of one segment (per-shard index search, per-shard part
+    # selection, one scanner over the parts of all shards)
+    fams.append(_fam(name='stream-criteria-inverted-2shards', series=S, times=T, maxrows=1, maxtotal=3, maxops=3,
+                     sims=25 if c.quick else 300, simops=11, queries=c08_queries(C08_EXCLUDE['inverted']), index='inverted', shards=2,
+                     sim=dict(maxrows=3, maxtotal=8)))
+    if not c.quick:
+        fams.append(_fam(name='stream-criteria-skipping-2shards', series=S, times=T, maxrows=1, maxtotal=3, maxops=3,
+                         sims=200, simops=11, queries=c08_queries(C08_EXCLUDE['skipping']), index='skipping', shards=2, sim=dict(maxrows=3, maxtotal=8)))
     return fams
 
 
@@ -124,6 +132,10 @@ def c09_queries():
         qs.append(query(2, 3, [1, 2], crit('one', leaf('ge', 'a', (1,))), 'time', asc, 1, 2))
         qs.append(query(1, 2, [2], crit('one', leaf()), 'time', asc, 0, 1))
         qs.append(query(1, 3, S, crit('one', leaf('ne', 'b', (1,))), 'time', asc, 0, 3))
+        # a condition on the array tag is never served by an index: it is evaluated after the scan, also when the result
+        # is ordered by an index rule (the harness repeats every window ordered by the rules on a and b)
+        qs.append(query(1, 3, S, crit('one', leaf('having', 'arr', (1,))), 'time', asc, 0, 2))
+        qs.append(query(1, 3, S, crit('and', leaf('nothaving', 'arr', (3,)), leaf('ge', 'a', (1,))), 'time', asc, 1, 2))
     return qs
 
 
@@ -156,6 +168,9 @@ def c09(c):
              sims=50 if c.quick else 500, simops=12, queries=c09_queries(), index='inverted', sim=dict(maxrows=3, maxtotal=9)),
         _fam(name='stream-order-window-noindex', series=S, times=T, maxrows=1, maxtotal=3, maxops=3,
              sims=40 if c.quick else 300, simops=12, queries=c09_queries(), index='none', sim=dict(maxrows=3, maxtotal=9)),
+        # two shards: ordered results are merged across the tables of the shards
+        _fam(name='stream-order-window-2shards', series=S, times=T, maxrows=1, maxtotal=3, maxops=3,
+             sims=25 if c.quick else 300, simops=12, queries=c09_queries(), index='inverted', shards=2, sim=dict(maxrows=3, maxtotal=9)),
         # one element per batch, every batch flushed on its own: file parts whose time ranges are pairwise disjoint or
         # identical (the scanner walks time-disjoint groups of parts one after the other); every path of the graph
         _fam(name='stream-order-disjoint-parts', series=[1, 2], times=T, maxrows=1, maxtotal=3, maxops=7, graphops=7,
